@@ -272,10 +272,14 @@ pub struct PanicInfo {
 impl PanicInfo {
     /// location with the /repo prefix stripped and without column (stable signature)
     pub fn site(&self) -> String {
-        self.location.trim_start_matches("/repo/").to_string()
+        match self.location.find("/repo/") {
+            Some(i) => self.location[i + 6..].to_string(),
+            None => self.location.clone(),
+        }
     }
+    /// panic raised from a file of the repository under test (not from the harness or a dependency)
     pub fn in_repo(&self) -> bool {
-        self.location.starts_with("/repo/") || !self.location.starts_with('/')
+        self.location.contains("/repo/")
     }
 }
 
